@@ -652,33 +652,30 @@ func (in *Interp) sprint(fr *frame, args []Val, ln bool) Str {
 	return r
 }
 
-// sprintfSym handles a format string with symbolic bytes and no operands
-// (go-flags passes an error text as the format in one place).
+// sprintfSym handles a format string with symbolic bytes (go-flags passes an
+// error text as the format in one place). Every byte is decided: an ordinary
+// byte is copied, "%%" is a percent sign, '%' followed by one of the verbs
+// s v d q x c t consumes the next operand (or prints the MISSING marker),
+// '%' followed by a flag/width/index byte, by another verb while operands
+// remain, or operands left over at the end are recorded cuts.
 func (in *Interp) sprintfSym(fr *frame, f Str, args []Val) Str {
-	if len(args) != 0 {
-		panic(in.unsupported("fmt: symbolic format string with operands"))
-	}
 	tt := in.tt
-	var out []*Term
-	lit := func(s string) {
-		for i := 0; i < len(s); i++ {
-			out = append(out, tt.BV(8, uint64(s[i])))
-		}
-	}
+	r := Str{}
+	argi := 0
 	for i := 0; i < len(f.s); i++ {
 		b := in.strByte(f, i)
 		if !in.Decide(tt.Eq(b, tt.BV(8, '%'))) {
-			out = append(out, b)
+			r = strConcat(r, in.strFromBytes([]*Term{b}))
 			continue
 		}
 		if i+1 >= len(f.s) {
-			lit("%!(NOVERB)")
+			r = strConcat(r, ConcStr("%!(NOVERB)"))
 			break
 		}
 		nb := in.strByte(f, i+1)
 		i++
 		if in.Decide(tt.Eq(nb, tt.BV(8, '%'))) {
-			lit("%")
+			r = strConcat(r, ConcStr("%"))
 			continue
 		}
 		special := tt.Ule(tt.BV(8, 0x80), nb)
@@ -688,11 +685,29 @@ func (in *Interp) sprintfSym(fr *frame, f Str, args []Val) Str {
 		if in.Decide(special) {
 			panic(pathEnd{endCut, "fmt: '%' followed by a flag/width/index byte inside a symbolic format string"})
 		}
-		lit("%!")
-		out = append(out, nb)
-		lit("(MISSING)")
+		if argi >= len(args) {
+			r = strConcat(r, ConcStr("%!"))
+			r = strConcat(r, in.strFromBytes([]*Term{nb}))
+			r = strConcat(r, ConcStr("(MISSING)"))
+			continue
+		}
+		done := false
+		for _, verb := range []byte("svdqxct") {
+			if in.Decide(tt.Eq(nb, tt.BV(8, uint64(verb)))) {
+				r = strConcat(r, in.fmtValue(fr, args[argi], verb))
+				argi++
+				done = true
+				break
+			}
+		}
+		if !done {
+			panic(pathEnd{endCut, "fmt: '%' followed by an unmodelled verb with an operand inside a symbolic format string"})
+		}
 	}
-	return in.strFromBytes(out)
+	if argi < len(args) {
+		panic(pathEnd{endCut, "fmt: operands left over after a symbolic format string (EXTRA marker not modelled)"})
+	}
+	return r
 }
 
 func (in *Interp) sprintf(fr *frame, format string, args []Val) Str {
